@@ -44,6 +44,12 @@ m = {
     "engines": [
         {"name": "ctl+mxworker", "path": "/verif/harness", "serves_properties": [c["property_id"] for c in checks],
          "kind_free_text": "controller (generators, reference models, oracles, porcupine history checking; never links murex) driving child-process workers that link murex from /repo with -tags verif (optionally -race) and execute programs / API workloads in-process"},
+        {"name": "go race detector", "path": "/verif/harness/cmd/mxworker", "serves_properties": ["C32"],
+         "kind_free_text": "the same worker built with `go build -race -tags verif`, GORACE=halt_on_error=0 log_path=...; the controller parses and de-duplicates the report log"},
+        {"name": "go native fuzzing", "path": "/verif/harness/fuzz", "serves_properties": ["C20", "C37"],
+         "kind_free_text": "coverage-guided fuzz targets (FuzzParseBlock, FuzzHighlight) built with `go test -c -fuzz` from the working tree and run for a fixed number of executions, seeded with generated inputs and /verif/corpus"},
+        {"name": "murex binary", "path": "/repo", "serves_properties": ["C10"],
+         "kind_free_text": "`go build -tags verif` of /repo's main package, spawned as `murex --execute argvecho ...` with a private PATH"},
     ],
     "checks": checks,
     "not_applicable": na,
